@@ -162,6 +162,11 @@ Qed.
 Lemma quote_field_lang fl rfc dlm f : quote_field fl rfc dlm f = quote_field LPy rfc dlm f.
 Proof. destruct fl, rfc; cbn [quote_field]; auto using quote_field_agree, rfc_quote_field_agree, eq_sym. Qed.
 
+Lemma join_line_lang fl pol dlm fs : join_line_fl fl pol dlm fs = join_line_fl LPy pol dlm fs.
+Proof.
+  unfold join_line_fl, quote_fields. destruct pol; try reflexivity; f_equal; apply map_ext; intros f; apply quote_field_lang.
+Qed.
+
 Lemma gets_quoted_sound pol dlm f : (pol = Quoted \/ pol = QuotedRfc) -> gets_quoted pol dlm f = false -> has QT f = false.
 Proof.
   intros [->| ->]; unfold gets_quoted; intros H.
